@@ -365,7 +365,19 @@ def task_random(ctx, col, shard, n):
     hyp_search(ctx, col, st_prog(), lambda s: execute(ctx, s), shard_seed(ctx, shard), n)
 
 
+
+
+def interpreter_selftest(ctx):
+    """The reference interpreters are the trusted base: refuse to run if their own self-test fails."""
+    import subprocess, sys
+    env = dict(os.environ, PYTHONPATH=os.pathsep.join([ctx.home, ctx.darr_src]))
+    p = subprocess.run([sys.executable, '-B', '-W', 'ignore', os.path.join(ctx.home, 'tools', 'langtest.py')], capture_output=True, text=True, env=env)
+    if p.returncode != 0:
+        raise HarnessError('reference-interpreter self-test failed:\n' + (p.stdout + p.stderr)[-1500:])
+
+
 def tasks(ctx):
+    interpreter_selftest(ctx)
     seeds = (ctx.seed,) if ctx.tier == 'quick' else tuple(ctx.seed * 100 + i for i in range(20))
     t = []
     for sh in range(NSHARDS):
